@@ -10,10 +10,10 @@
 (* namespace for the default registry).                                      *)
 EXTENDS NamesEdit, IOUtils
 Traces == JsonDeserialize(IOEnv.TRACES)
-VARIABLES tid, l, ruser, rprev, cur
-tvars == <<evars, tid, l, ruser, rprev, cur>>
+VARIABLES tid, l, ruser, rprev, cur, stale, sprev
+tvars == <<evars, tid, l, ruser, rprev, cur, stale, sprev>>
 NoEv == [op |-> "init"]
-TraceInit == EditInitK("custom") /\ tid = 0 /\ l = 0 /\ ruser = Table0 /\ rprev = Table0 /\ cur = NoEv
+TraceInit == EditInitK("custom") /\ tid = 0 /\ l = 0 /\ ruser = Table0 /\ rprev = Table0 /\ cur = NoEv /\ stale = {} /\ sprev = {}
 Step(e) == CASE e.op = "add" -> Add(e.k, e.m, e.pfx)
              [] e.op = "remove" -> Remove(e.k)
              [] e.op = "modify" -> Modify(e.k, e.m)
@@ -28,15 +28,16 @@ RUser(e) == IF e.obs.k # "ok" THEN ruser
 TraceNext ==
   \/ /\ tid = 0 /\ \E t \in 1..Len(Traces) : (tid' = t /\ kind' = Traces[t].kind
                                                /\ lut' = IF Traces[t].kind = "default" THEN TableWarm ELSE Table0)
-     /\ l' = 1 /\ UNCHANGED <<user, memo, hist, last, ruser, rprev, cur>>
+     /\ l' = 1 /\ UNCHANGED <<user, memo, hist, last, ruser, rprev, cur, stale, sprev>>
   \/ /\ tid > 0 /\ l <= Len(Traces[tid].ev)
      /\ Step(Traces[tid].ev[l]) /\ hist' = hist
      /\ ruser' = RUser(Traces[tid].ev[l]) /\ rprev' = ruser
      /\ cur' = Traces[tid].ev[l]
+     /\ stale' = StaleAfter(stale, Traces[tid].ev[l], Traces[tid].ev[l].rowsbefore, Traces[tid].ev[l].rows) /\ sprev' = stale
      /\ l' = l + 1 /\ tid' = tid
   \/ /\ tid > 0 /\ l = Len(Traces[tid].ev) + 1
      /\ cur' = [op |-> "final"] /\ l' = l + 1
-     /\ UNCHANGED <<evars, ruser, rprev, tid>>
+     /\ UNCHANGED <<evars, ruser, rprev, tid, stale, sprev>>
 
 PFail(clause, p, layer, o, want) == PrintT(ToJson([tag |-> "P-FAIL", tid |-> tid, l |-> l - 1, clause |-> clause, probe |-> ProbeSeq[p].s,
                                                    layer |-> layer, observed |-> o, expected |-> want]))
@@ -46,14 +47,14 @@ TStrOk(m, o) == IF m.k = "unit" THEN o.ok /\ (\E x \in DOMAIN o.den : o.den[x] =
 CheckStep ==
   (tid > 0 /\ cur.op \notin {"init", "final"}) =>
     /\ (cur.op = "unit" =>
-          /\ (~C14_EditStr(ruser, cur.p, cur.obs) => PFail("EditStr", cur.p, Layer(ruser, cur.p, cur.rowsbefore), cur.obs, RefDens(ruser, cur.p)))
+          /\ (~C14_EditStr(ruser, cur.p, cur.obs) => PFail("EditStr", cur.p, Layer(sprev, cur.p), cur.obs, RefDens(ruser, cur.p)))
           /\ (~TStrOk(last, cur.obs) => TFail("unit", last)))
     /\ (cur.op = "define" =>
           (~C14_DefineGuard(rprev, cur.k, cur.obs.k = "ok") =>
-              PFail("DefineGuard", ProbeNo(cur.k), Layer(rprev, ProbeNo(cur.k), cur.rowsbefore), cur.obs, {RaiseO})))
+              PFail("DefineGuard", ProbeNo(cur.k), Layer(sprev, ProbeNo(cur.k)), cur.obs, {RaiseO})))
     /\ (cur.op = "addsymbols" =>
           /\ (cur.obs.k = "ns" => \A p \in PIdx :
-                ~C14_EditNs(ruser, p, cur.ns[p]) => PFail("EditNs", p, Layer(ruser, p, cur.rowsbefore), cur.ns[p], RefDens(ruser, p)))
+                ~C14_EditNs(ruser, p, cur.ns[p]) => PFail("EditNs", p, Layer(sprev, p), cur.ns[p], RefDens(ruser, p)))
           /\ ((cur.obs.k = "ns") # (last.k = "ns") => TFail("addsymbols", [k |-> last.k]))
           /\ ((cur.obs.k = "ns" /\ last.k = "ns") => \A p \in PIdx :
                 (IF last.ns[p].k = "unit" THEN ~(cur.ns[p].present /\ TStrOk(last.ns[p], cur.ns[p])) ELSE cur.ns[p].present)
@@ -65,12 +66,18 @@ Final == Traces[tid].final
 CheckFinal ==
   (tid > 0 /\ cur.op = "final") =>
     /\ \A p \in PIdx :
-         /\ (~C14_EditStr(ruser, p, Final.probes[p]) => PFail("EditStr", p, Layer(ruser, p, Final.rows), Final.probes[p], RefDens(ruser, p)))
+         /\ (~C14_EditStr(ruser, p, Final.probes[p]) => PFail("EditStr", p, Layer(stale, p), Final.probes[p], RefDens(ruser, p)))
          /\ (~TStrOk(PeekStr(p, lut, MemoRead)[1], Final.probes[p]) => TFail("final-unit", [probe |-> ProbeSeq[p].s, model |-> PeekStr(p, lut, MemoRead)[1]]))
     /\ (Final.nsok => \A p \in PIdx :
-          /\ (~C14_EditNs(ruser, p, Final.ns[p]) => PFail("EditNs", p, Layer(ruser, p, Final.rows), Final.ns[p], RefDens(ruser, p)))
+          /\ (~C14_EditNs(ruser, p, Final.ns[p]) => PFail("EditNs", p, Layer(stale, p), Final.ns[p], RefDens(ruser, p)))
           /\ ((Final.ns[p].present /\ Final.probes[p].ok /\ Final.ns[p].den # Final.probes[p].den)
-                => PFail("EditAgree", p, Layer(ruser, p, Final.rows), Final.ns[p], {[k |-> "unit", den |-> Final.probes[p].den]})))
+                => PFail("EditAgree", p, Layer(stale, p), Final.ns[p], {[k |-> "unit", den |-> Final.probes[p].den]})))
     /\ ((kind = "custom" /\ Final.nsok # NsOf(lut).ok) => TFail("final-addsymbols", [ok |-> NsOf(lut).ok]))
+    \* EditSweep: every documented symbol-level name (table symbol, prefix symbol + prefixable symbol) whose base symbol no
+    \* call of the history touched still denotes prefix x canonical in this registry, i.e. what it denotes in an unedited
+    \* registry - whatever user symbols were added and resolved (the harness lists the names that do not)
+    /\ \A x \in DOMAIN Final.sweepbad :
+          PrintT(ToJson([tag |-> "P-FAIL", tid |-> tid, l |-> l - 1, clause |-> "EditSweep", probe |-> Final.sweepbad[x].name, layer |-> "fresh",
+                         observed |-> Final.sweepbad[x].got, expected |-> {Final.sweepbad[x].want}]))
 Check == CheckStep /\ CheckFinal
 =============================================================================
